@@ -90,37 +90,106 @@ theorem mergeDomainList_covers (env : Env) (l : List Hit) :
 theorem refine_eq (env : Env) (nb : Bool) (l : List Hit) :
     refine env nb l = removeIncomplete env (beforeIncomplete env nb l) := rfl
 
-theorem removeOverlapping_dominated (env : Env) (l : List Hit) : ∀ d ∈ l,
-    d ∈ removeOverlapping env l ∨ ∃ k ∈ removeOverlapping env l, Dominated env d k := by
-  cases l with
-  | nil => simp
-  | cons a t =>
-    simp only [removeOverlapping, removeOverlapping?, Option.getD_some]
-    exact remOvFrom_dominated env a t
+/-! ### dropped only against a kept result that outranks it -/
 
-/-- why an input hit may be missing before the incomplete-fragment rule is applied: it is inside a
-    same-profile hit `m` (itself, or the merge it went into) that is still there, or that lost a
-    chain of collisions ending in a hit `k` that is still there (default mode); in neighbour mode
-    the collisions come first and the winner is then inside a merged hit -/
+theorem sorted_getElem? {l : List Hit} (hs : Sorted l) {i j : Nat} {a b : Hit} (hij : i < j)
+    (ha : l[i]? = some a) (hb : l[j]? = some b) : a.qs ≤ b.qs := by
+  obtain ⟨hi, rfl⟩ := List.getElem?_eq_some_iff.mp ha
+  obtain ⟨hj, rfl⟩ := List.getElem?_eq_some_iff.mp hb
+  exact (List.pairwise_iff_getElem.mp hs) i j hi hj hij
+
+theorem collide_of_clashIdx (env : Env) {l : List Hit} (hs : Sorted l) {x k : Nat × Hit}
+    (hx : x ∈ enumFrom 0 l) (hk : k ∈ enumFrom 0 l) (hne : k.1 ≠ x.1) (hc : clashIdx env x k = true) :
+    collide env k.2 x.2 = true := by
+  have hx' := (mem_enumFrom_iff.mp hx).2
+  have hk' := (mem_enumFrom_iff.mp hk).2
+  simp only [Nat.sub_zero] at hx' hk'
+  simp only [clashIdx] at hc
+  simp only [collide]
+  by_cases hle : x.1 ≤ k.1
+  · -- `x` comes first
+    simp only [hle, if_true] at hc
+    have hq : x.2.qs ≤ k.2.qs := sorted_getElem? hs (by omega) hx' hk'
+    rw [conflict_eq] at hc
+    have hc' : startsClear env x.2 k.2 = false := by simpa using hc
+    by_cases hq2 : k.2.qs ≤ x.2.qs
+    · have : k.2.qs = x.2.qs := by omega
+      simp [hq2, this, hc']
+    · simp [hq2, hc']
+  · simp only [hle, if_false] at hc
+    have hq : k.2.qs ≤ x.2.qs := sorted_getElem? hs (by omega) hk' hx'
+    rw [conflict_eq] at hc
+    have hc' : startsClear env k.2 x.2 = false := by simpa using hc
+    simp [hq, hc']
+
+/-- a result missing from the output of the pass collides with a returned result that has the
+    higher score — or the same score and the earlier position -/
+theorem removeOverlapping_justified (env : Env) {l : List Hit} (hs : Sorted l) : ∀ d ∈ l,
+    d ∈ removeOverlapping env l ∨
+      ∃ k ∈ removeOverlapping env l, collide env k d = true ∧ RanksAbove l k d := by
+  intro d hd
+  obtain ⟨j, hj⟩ := List.mem_iff_getElem?.mp hd
+  have hx : (j, d) ∈ enumFrom 0 l := mem_enumFrom_iff.mpr ⟨Nat.zero_le _, by simpa using hj⟩
+  rcases keptIdx_justified env l (j, d) hx with h | ⟨k, hk, hc, hr⟩
+  · left
+    rw [removeOverlapping_eq]
+    exact List.mem_map.mpr ⟨(j, d), h, rfl⟩
+  · right
+    have hk_enum := mem_keptIdx hk
+    have hk' := (mem_enumFrom_iff.mp hk_enum).2
+    simp only [Nat.sub_zero] at hk'
+    have hne : k.1 ≠ j := by
+      intro e
+      rcases hr with hr | hr
+      · rw [e, hj] at hk'
+        simp only [Option.some.injEq] at hk'
+        simp only at hr; rw [hk'] at hr; omega
+      · simp only at hr; omega
+    refine ⟨k.2, ?_, collide_of_clashIdx env hs hx hk_enum hne hc, ?_⟩
+    · rw [removeOverlapping_eq]; exact List.mem_map.mpr ⟨k, hk, rfl⟩
+    · rcases hr with hr | hr
+      · exact Or.inl hr
+      · exact Or.inr ⟨hr.1, k.1, j, hr.2, hk', hj⟩
+
+theorem droppedJustified_removeOverlapping (env : Env) {l : List Hit} (hs : Sorted l) :
+    droppedJustified env l (removeOverlapping env l) = true := by
+  simp only [droppedJustified, List.all_eq_true, Bool.or_eq_true, List.contains_eq_mem, decide_eq_true_eq,
+    List.any_eq_true, Bool.and_eq_true]
+  intro d hd
+  rcases removeOverlapping_justified env hs d hd with h | ⟨k, hk, hc, hr⟩
+  · exact Or.inl h
+  · refine Or.inr ⟨k, hk, hc, ?_⟩
+    simp only [outranks, decide_eq_true_eq]
+    rcases hr with hr | hr
+    · omega
+    · omega
+
+/-- why an input hit may be missing before the incomplete-fragment rule is applied (default mode):
+    it is inside a same-profile hit `m` (itself, or the merge it went into) that is still there or
+    collides with one that is still there and outranks it; (neighbour mode) it is itself inside a
+    merged hit that is still there, or collides with a better raw hit that is -/
 theorem beforeIncomplete_accounts (env : Env) (nb : Bool) (l : List Hit) : ∀ x ∈ l,
     (∃ m ∈ beforeIncomplete env nb l, Covers m x) ∨
-    (∃ m k, Covers m x ∧ Dominated env m k ∧ ∃ o ∈ beforeIncomplete env nb l, Covers o k) := by
+    (∃ m k, Covers m x ∧ collide env k m = true ∧ m.sc ≤ k.sc ∧ ∃ o ∈ beforeIncomplete env nb l, Covers o k) := by
   intro x hx
   have hx' : x ∈ sortHits l := mem_sortHits.mpr hx
   cases nb with
   | true =>
     simp only [beforeIncomplete, if_true]
-    rcases removeOverlapping_dominated env (sortHits l) x hx' with h | ⟨k, hk, hd⟩
+    rcases removeOverlapping_justified env (sortHits_sorted l) x hx' with h | ⟨k, hk, hc, hr⟩
     · left
       exact mergeImmediate_covers env _ x h
     · right
-      obtain ⟨o, ho, hc⟩ := mergeImmediate_covers env _ k hk
-      exact ⟨x, k, Covers.refl x, hd, o, ho, hc⟩
+      obtain ⟨o, ho, hco⟩ := mergeImmediate_covers env _ k hk
+      refine ⟨x, k, Covers.refl x, hc, ?_, o, ho, hco⟩
+      rcases hr with hr | hr <;> omega
   | false =>
     simp only [beforeIncomplete, Bool.false_eq_true, if_false]
     obtain ⟨m, hm, hc⟩ := mergeDomainList_covers env (sortHits l) x hx'
-    rcases removeOverlapping_dominated env _ m hm with h | ⟨k, hk, hd⟩
+    rcases removeOverlapping_justified env (mergeDomainList_sorted env _) m hm with h | ⟨k, hk, hcl, hr⟩
     · left; exact ⟨m, h, hc⟩
-    · right; exact ⟨m, k, hc, hd, k, hk, Covers.refl k⟩
+    · right
+      refine ⟨m, k, hc, hcl, ?_, k, hk, Covers.refl k⟩
+      rcases hr with hr | hr <;> omega
 
 end ASV.Refine
